@@ -30,24 +30,24 @@ import (
 const wd = 3 * time.Second
 
 type stream struct {
-	sid        int
-	dir        string
-	up         *iscp.Upstream
-	down       *iscp.Downstream
-	id         uuid.UUID
-	alias      uint32
-	opened     bool
-	openErr    error
-	attached   int32 // incarnation (1-based) the stream is attached to
-	resumedEv  int32
-	closedEv   int32
-	closedErr  int32
-	appClosed  bool
-	flaggedTwice bool
+	sid           int
+	dir           string
+	up            *iscp.Upstream
+	down          *iscp.Downstream
+	id            uuid.UUID
+	alias         uint32
+	opened        bool
+	openErr       error
+	attached      int32 // incarnation (1-based) the stream is attached to
+	resumedEv     int32
+	closedEv      int32
+	closedErr     int32
+	appClosed     bool
+	flaggedTwice  bool
 	overlapClosed bool // closed by two overlapping Close calls: the closed notification may be lost (at most once is what is required)
-	writeSeq   int
-	points     uint64 // data points the application wrote successfully
-	evAtClose  int32 // closed notifications delivered before the connection's Close (-1: not yet closed)
+	writeSeq      int
+	points        uint64 // data points the application wrote successfully
+	evAtClose     int32  // closed notifications delivered before the connection's Close (-1: not yet closed)
 }
 
 type req struct {
@@ -66,31 +66,31 @@ type held struct {
 type counters struct{ tokens, disc, reconn int32 }
 
 type impl struct {
-	b       *broker.Broker
-	conn    *iscp.Conn
+	b    *broker.Broker
+	conn *iscp.Conn
 	*counters
-	streams []*stream
-	reqs    []*req
-	mu      sync.Mutex
-	held    []held
-	holdMeta string
-	gate    chan struct{}
-	closed  bool
-	discSent int
-	incAtClose int
-	released int // dial attempts released from the gate so far (incl. the initial connect)
-	ackAttempts int // attempts the events so far account for (1 + outages + elapsed back-offs): an attempt that starts early because the harness was slow is not shown before its event
-	holdOpen bool     // the broker swallows stream open requests (their exchange is to be cut)
-	shorts   []string // names of requests whose context ended during an outage: they must never reach the broker
-	tokenFlagged bool
-	pendingViolation string
+	streams                       []*stream
+	reqs                          []*req
+	mu                            sync.Mutex
+	held                          []held
+	holdMeta                      string
+	gate                          chan struct{}
+	closed                        bool
+	discSent                      int
+	incAtClose                    int
+	released                      int      // dial attempts released from the gate so far (incl. the initial connect)
+	ackAttempts                   int      // attempts the events so far account for (1 + outages + elapsed back-offs): an attempt that starts early because the harness was slow is not shown before its event
+	holdOpen                      bool     // the broker swallows stream open requests (their exchange is to be cut)
+	shorts                        []string // names of requests whose context ended during an outage: they must never reach the broker
+	tokenFlagged                  bool
+	pendingViolation              string
 	earlyAtClose, earlyTokAtClose int
-	discFlagged bool
-	downAliases map[*broker.Inc]map[uint32]string
-	aliasSeq    int
-	aliasClash  string
-	dialsAtClose int
-	tokensAtClose int32
+	discFlagged                   bool
+	downAliases                   map[*broker.Inc]map[uint32]string
+	aliasSeq                      int
+	aliasClash                    string
+	dialsAtClose                  int
+	tokensAtClose                 int32
 }
 
 func waitUntil(d time.Duration, f func() bool) bool {
@@ -214,6 +214,17 @@ func (i *impl) reset() string {
 		})),
 		iscp.WithConnDisconnectedEventHandler(iscp.DisconnectedEventHandlerFunc(func(*iscp.DisconnectedEvent) { atomic.AddInt32(&cnt.disc, 1) })),
 		iscp.WithConnReconnectedEventHandler(iscp.ReconnectedEventHandlerFunc(func(*iscp.ReconnectedEvent) { atomic.AddInt32(&cnt.reconn, 1) })))
+	for try := 0; err != nil && try < 3; try++ { // a loaded machine: the connect handshake of the harness's own connection may time out
+		time.Sleep(20 * time.Millisecond)
+		conn, err = iscp.Connect("mem", broker.TransportName,
+			iscp.WithConnPingInterval(20*time.Millisecond), iscp.WithConnPingTimeout(500*time.Millisecond),
+			iscp.WithConnTokenSource(iscp.TokenSourceFunc(func() (iscp.Token, error) {
+				n := atomic.AddInt32(&cnt.tokens, 1)
+				return iscp.Token("tok" + strconv.Itoa(int(n))), nil
+			})),
+			iscp.WithConnDisconnectedEventHandler(iscp.DisconnectedEventHandlerFunc(func(*iscp.DisconnectedEvent) { atomic.AddInt32(&cnt.disc, 1) })),
+			iscp.WithConnReconnectedEventHandler(iscp.ReconnectedEventHandlerFunc(func(*iscp.ReconnectedEvent) { atomic.AddInt32(&cnt.reconn, 1) })))
+	}
 	if err != nil {
 		return "err connect: " + err.Error()
 	}
@@ -234,7 +245,10 @@ func (i *impl) curInc() int {
 	return len(i.b.Incs)
 }
 
-func (i *impl) openStream(st *stream) {
+func (i *impl) openStream(st *stream) { i.openStreamOn(i.conn, i.b, st) }
+
+// openStreamOn: the connection and broker are fixed when the open is issued (a later `reset` must not redirect an open that is still waiting)
+func (i *impl) openStreamOn(conn *iscp.Conn, b *broker.Broker, st *stream) {
 	ctx, cancel := context.WithTimeout(context.Background(), 8*time.Second)
 	defer cancel()
 	if st.dir == "u" {
@@ -242,7 +256,7 @@ func (i *impl) openStream(st *stream) {
 		if st.sid%2 == 0 {
 			qos = message.QoSUnreliable
 		}
-		u, err := i.conn.OpenUpstream(ctx, "sess"+strconv.Itoa(st.sid), iscp.WithUpstreamQoS(qos), iscp.WithUpstreamFlushPolicyIntervalOnly(time.Hour),
+		u, err := conn.OpenUpstream(ctx, "sess"+strconv.Itoa(st.sid), iscp.WithUpstreamQoS(qos), iscp.WithUpstreamFlushPolicyIntervalOnly(time.Hour),
 			iscp.WithUpstreamResumedEventHandler(iscp.UpstreamResumedEventHandlerFunc(func(*iscp.UpstreamResumedEvent) {
 				atomic.StoreInt32(&st.attached, int32(i.curInc()))
 				atomic.AddInt32(&st.resumedEv, 1)
@@ -259,7 +273,7 @@ func (i *impl) openStream(st *stream) {
 		}
 		st.up, st.id = u, u.ID
 	} else {
-		d, err := i.conn.OpenDownstream(ctx, []*message.DownstreamFilter{{SourceNodeID: "n0", DataFilters: []*message.DataFilter{{Name: "#", Type: "#"}}}},
+		d, err := conn.OpenDownstream(ctx, []*message.DownstreamFilter{{SourceNodeID: "n0", DataFilters: []*message.DataFilter{{Name: "#", Type: "#"}}}},
 			iscp.WithDownstreamQoS(message.QoSReliable), iscp.WithDownstreamAckFlushInterval(2*time.Millisecond),
 			iscp.WithDownstreamResumedEventHandler(iscp.DownstreamResumedEventHandlerFunc(func(*iscp.DownstreamResumedEvent) {
 				atomic.StoreInt32(&st.attached, int32(i.curInc()))
@@ -277,11 +291,11 @@ func (i *impl) openStream(st *stream) {
 		}
 		st.down, st.id = d, d.ID
 		// the alias this stream asked for: recorded by the broker under the stream id it assigned (several opens may complete at once)
-		i.b.Lock()
-		if ds := i.b.Downs[d.ID]; ds != nil {
+		b.Lock()
+		if ds := b.Downs[d.ID]; ds != nil {
 			st.alias = ds.Alias
 		}
-		i.b.Unlock()
+		b.Unlock()
 	}
 	atomic.StoreInt32(&st.attached, int32(i.curInc()))
 	st.opened = true
@@ -622,7 +636,7 @@ func (i *impl) exec(h *lp.H, op string) string {
 				h.Violate(fmt.Sprintf("cannot open a stream on a healthy connection: %v", st.openErr))
 			}
 		case "r":
-			go i.openStream(st)
+			go i.openStreamOn(i.conn, i.b, st)
 			time.Sleep(2 * time.Millisecond)
 		default:
 			t0 := time.Now()
@@ -642,7 +656,7 @@ func (i *impl) exec(h *lp.H, op string) string {
 		i.holdOpen = true
 		i.mu.Unlock()
 		n0 := i.b.LogLen()
-		go i.openStream(st)
+		go i.openStreamOn(i.conn, i.b, st)
 		if !waitUntil(wd, func() bool {
 			for _, r := range i.b.LogFrom(n0) {
 				switch r.Msg.(type) {
@@ -745,7 +759,7 @@ func (i *impl) exec(h *lp.H, op string) string {
 		} else {
 			st = &stream{sid: len(i.streams) + 1, dir: w[1][:1], evAtClose: -1}
 			i.streams = append(i.streams, st)
-			go i.openStream(st)
+			go i.openStreamOn(i.conn, i.b, st)
 		}
 		if !waitUntil(wd, func() bool {
 			for _, rec := range i.b.LogFrom(n0) {
@@ -765,7 +779,9 @@ func (i *impl) exec(h *lp.H, op string) string {
 		if cur != nil {
 			cur.Kill()
 		}
-		if !waitUntil(wd, func() bool { return atomic.LoadInt32(&i.disc) > d0 && atomic.LoadInt32(&i.reconn) > rc0 && i.status() == "c" }) {
+		if !waitUntil(wd, func() bool {
+			return atomic.LoadInt32(&i.disc) > d0 && atomic.LoadInt32(&i.reconn) > rc0 && i.status() == "c"
+		}) {
 			h.Violate(fmt.Sprintf("the transport failed and the immediate redial succeeded, but within %v the connection did not report disconnected+reconnected (status %s)", wd, i.status()))
 			break
 		}
@@ -798,7 +814,9 @@ func (i *impl) exec(h *lp.H, op string) string {
 		if cur := i.curIncPtr(); cur != nil {
 			cur.Kill()
 		}
-		if !waitUntil(wd, func() bool { return atomic.LoadInt32(&i.disc) > d0 && atomic.LoadInt32(&i.reconn) > rc0 && i.status() == "c" }) {
+		if !waitUntil(wd, func() bool {
+			return atomic.LoadInt32(&i.disc) > d0 && atomic.LoadInt32(&i.reconn) > rc0 && i.status() == "c"
+		}) {
 			h.Violate(fmt.Sprintf("the transport failed and the immediate redial succeeded, but within %v the connection did not report disconnected+reconnected (status %s)", wd, i.status()))
 			break
 		}
